@@ -20,7 +20,19 @@ fn validate_method(ctx: &Context, input: &DeriveInput) -> TokenStream {
     }
 
     let body = match &input.data {
-        Data::Struct(struct_data) => collect_fields(&struct_data.fields, quote! { __flatty_bytes }),
+        Data::Struct(struct_data) => {
+            let items = collect_fields(&struct_data.fields, quote! { __flatty_bytes });
+            if !ctx.info.sized {
+                quote! {
+                    let __flatty_bytes = unsafe {
+                        __flatty_bytes.get_unchecked(..::flatty::utils::floor_mul(__flatty_bytes.len(), Self::ALIGN))
+                    };
+                    #items
+                }
+            } else {
+                items
+            }
+        }
         Data::Enum(enum_data) => {
             if !ctx.c_like_enum.unwrap() {
                 let tag_type = ctx.idents.tag.as_ref().unwrap();
